@@ -9,7 +9,8 @@
 (* progress; lib/inputlib.py turns the cases that stop early into rejections).  *)
 EXTENDS ConnLife, FcgiIn, HttpIn, TraceBase
 
-Scripts == << <<47,115,121,110,99>>, <<47,97,115,121,110,99>>, <<47,102,105,108,116>> >>   \* /sync /async /filt
+Scripts == << <<47,115,121,110,99>>, <<47,97,115,121,110,99>>, <<47,102,105,108,116>>,
+             <<47,114,97,119,102>>, <<47,109,112,102>> >>                      \* /sync /async /filt /rawf /mpf
 
 VARIABLES l, start
 tvars == <<cvars, l, start>>
